@@ -116,6 +116,10 @@ def LoadResult.count : LoadResult → Nat
   | .aborted _ => 0
   | .loaded os => (entriesAll os).length
 
+def LoadResult.objs : LoadResult → Option (List XObj)
+  | .aborted _ => none
+  | .loaded os => some os
+
 def isOk {α : Type} : Except XErr α → Bool
   | .ok _ => true
   | .error _ => false
@@ -123,6 +127,30 @@ def isOk {α : Type} : Except XErr α → Bool
 def errOf {α : Type} : Except XErr α → Option XErr
   | .ok _ => none
   | .error e => some e
+
+/-! ### several external projects -/
+
+/-- an external project that cannot end B's run: its description converts, or fetching it fails in one of
+    the ways the `except` clause names -/
+def harmless (p : Base × Fetch) : Bool :=
+  match p.2 with
+  | .got doc => isOk (importDoc p.1 doc)
+  | .failed exc => catches exc
+
+/-- what one external project contributes when it is the only one listed: the objects of its description,
+    nothing when the description could not be fetched -/
+def objsOf (p : Base × Fetch) : List XObj :=
+  match p.2 with
+  | .got doc => (match importDoc p.1 doc with | .ok os => os | .error _ => [])
+  | .failed _ => []
+
+/-- the exits the translator can report for a handler -/
+def knownExits : List Str :=
+  [['f', 'a', 'l', 'l', 't', 'h', 'r', 'o', 'u', 'g', 'h'], ['c', 'o', 'n', 't', 'i', 'n', 'u', 'e'],
+   ['b', 'r', 'e', 'a', 'k'], ['r', 'e', 't', 'u', 'r', 'n'], ['r', 'a', 'i', 's', 'e'],
+   ['u', 'n', 'c', 'a', 'u', 'g', 'h', 't']]
+
+def kUncaught : Str := ['u', 'n', 'c', 'a', 'u', 'g', 'h', 't']
 
 def kModProc : Str := ['M', 'o', 'd', 'u', 'l', 'e', ' ', 'P', 'r', 'o', 'c', 'e', 'd', 'u', 'r', 'e']
 def kUnknown : Str := ['U', 'n', 'k', 'n', 'o', 'w', 'n']
